@@ -175,7 +175,17 @@ Oversized(T) == T # <<>> /\ OversizedIn(T)
 (* ------------------------------------------------------------------- verdict *)
 (* large bounds below the invariant size limit may still exceed the size limit of the compiled *)
 (* program (a different, documented error): no prediction                                     *)
-HasBigBound(T) == \E r \in Reps(T) : r.lo >= 1000 \/ (r.hi # INF /\ r.hi >= 1000)
+RECURSIVE CopiesSeq(_), CopiesTok(_)
+MaxOf(S) == IF S = {} THEN 1 ELSE CHOOSE x \in S : \A y \in S : y <= x
+CopiesTok(t) ==
+  CASE t.k = "rep" -> LET b == IF t.hi = INF THEN t.lo ELSE t.hi
+                          c == CopiesSeq(t.bd) IN
+                      IF b >= 1000 \/ c >= 1000 THEN 1000000 ELSE (IF b = 0 THEN 1 ELSE b) * c
+    [] t.k = "alt" -> MaxOf({CopiesSeq(t.bs[x]) : x \in DOMAIN t.bs})
+    [] OTHER -> 1
+CopiesSeq(s) == MaxOf({CopiesTok(s[j]) : j \in DOMAIN s})
+(* a single large bound, or nested bounds whose product is large (<<*a:256>:256>) *)
+HasBigBound(T) == (\E r \in Reps(T) : r.lo >= 1000 \/ (r.hi # INF /\ r.hi >= 1000)) \/ CopiesSeq(T) >= 1000
 
 (* Unspecified clause U1: a body that begins and ends with a boundary but is written at most *)
 (* once - the statement speaks of bodies that are "repeated"; either verdict is accepted.     *)
